@@ -216,8 +216,13 @@ def random_history(rng, d, ver, nops, hid, heavy="all", reopen_p=0.03, meta_p=0.
             q = rng.random()
             if q < 0.3 and d.invalid:
                 par = rng.choice(sh.storages())
-                op = rng.choice(["create_storage", "create_stream", "create_new_stream", "create_storage_all"])
-                ops.append({"op": op, "p": sp(sh.names_of(par) + [rng.choice(d.invalid)])})
+                op = rng.choice(["create_storage", "create_stream", "create_new_stream", "create_storage_all", "create_storage_all"])
+                mid = []
+                if op == "create_storage_all" and rng.random() < 0.6:
+                    # missing valid components before the invalid one: nothing may be created
+                    mid = [rng.choice(d.valid) for _ in range(rng.choice([1, 2]))]
+                tail = [rng.choice(d.valid)] if op == "create_storage_all" and rng.random() < 0.3 else []
+                ops.append({"op": op, "p": sp(sh.names_of(par) + mid + [rng.choice(d.invalid)] + tail)})
             elif q < 0.5:
                 # missing parent
                 ops.append({"op": rng.choice(["create_storage", "create_stream"]),
@@ -396,6 +401,15 @@ def threshold_histories(tier, seed):
                {"op": "create_stream", "p": sp(["c"])},
                {"op": "write", "p": sp(["c"]), "off": 0, "runs": f.runs(rng, 100000), "heavy": True}]
         out.append({"id": "difatgrow_v3", "ver": 3, "heavy": "marked", "ops": ops})
+        # (e) a second DIFAT sector: more than 109 + 127 FAT sectors (~15.5 MiB in V3)
+        f = Fill()
+        ops = [{"op": "create_stream", "p": sp(["a"])},
+               {"op": "write", "p": sp(["a"]), "off": 0, "runs": f.runs(rng, 15600000), "heavy": True},
+               {"op": "create_stream", "p": sp(["B"])},
+               {"op": "write", "p": sp(["B"]), "off": 0, "runs": f.runs(rng, 300000), "heavy": True},
+               {"op": "reopen", "mode": "strict", "heavy": True},
+               {"op": "write", "p": sp(["B"]), "off": 300000, "runs": f.runs(rng, 5000), "heavy": True}]
+        out.append({"id": "difat2grow_v3", "ver": 3, "heavy": "marked", "ops": ops})
     return out
 
 
@@ -501,6 +515,13 @@ def c15_templates(tier):
                                       {"op": "remove_stream", "p": sp(["zz"])}],
                     "grow_shrink": [{"op": "set_len", "p": sp(["a"]), "n": s + 64},
                                     {"op": "set_len", "p": sp(["a"]), "n": 64}],
+                    # regular -> larger regular -> back (truncation inside a regular chain)
+                    "grow_shrink_big": [{"op": "set_len", "p": sp(["AB"]), "n": 5000 + s + 4096},
+                                        {"op": "set_len", "p": sp(["AB"]), "n": 5000}],
+                    "trunc_remove_big": [{"op": "create_stream", "p": sp(["zz"])},
+                                         {"op": "write", "p": sp(["zz"]), "off": 0, "runs": [[7, s + 8192]]},
+                                         {"op": "set_len", "p": sp(["zz"]), "n": 4500},
+                                         {"op": "remove_stream", "p": sp(["zz"])}],
                 }
                 if s in (10, 4096, 10000):
                     cycles["create_setlen_remove"] = [{"op": "create_stream", "p": sp(["zz"])},
@@ -524,7 +545,9 @@ def c15_templates(tier):
                 for cname, cyc in cycles.items():
                     # prefix: a stream 'a' of 64 bytes plus fillers occupying nfill mini sectors
                     ops = [{"op": "create_stream", "p": sp(["a"])},
-                           {"op": "write", "p": sp(["a"]), "off": 0, "runs": [[5, 64]]}]
+                           {"op": "write", "p": sp(["a"]), "off": 0, "runs": [[5, 64]]},
+                           {"op": "create_stream", "p": sp(["AB"])},
+                           {"op": "write", "p": sp(["AB"]), "off": 0, "runs": [[6, 5000]]}]
                     left, k = nfill, 0
                     while left > 0:
                         take = min(left, 63)            # fillers stay below the 4096 cutoff
@@ -542,7 +565,7 @@ def c15_templates(tier):
     return out
 
 
-C15_FILLERS = ["foo", "bar", "baz", "B", "c", "Z", "aa", "AB", "stream1", "n31", "n30", "sp", "dot", "dots", "k4", "k5", "k6"]
+C15_FILLERS = ["foo", "bar", "baz", "B", "c", "Z", "aa", "stream1", "n31", "n30", "sp", "dot", "dots", "k4", "k5", "k6"]
 
 
 # ---------------------------------------------------------------------------
